@@ -303,8 +303,27 @@ pub fn run(sc: &C20Sc) -> RunReport {
         }
         let mut steps: Vec<Option<&Step>> = vec![None];
         steps.extend(sc.steps[early..].iter().map(Some));
+        // "at all times": what must be offered at every instant, settled or not - the servers that were
+        // offerable at the last settle point and that no step has touched since; and what may be offered
+        // at all - versions of a server that existed at some time
+        let mut stable: BTreeMap<String, (String, BTreeMap<String, String>)> = BTreeMap::new();
+        let mut ever: BTreeMap<String, Vec<(String, BTreeMap<String, String>)>> = BTreeMap::new();
+        for g in sc.initial.iter().chain(sc.steps.iter().filter_map(|s| if let Step::Apply(g) = s { Some(g) } else { None })) {
+            if let Some((n, a, m)) = g.expected() {
+                ever.entry(n).or_default().push((a, m));
+            }
+        }
         for (si, step) in steps.iter().enumerate() {
             if let Some(step) = step {
+                match step {
+                    Step::Apply(g) => {
+                        stable.remove(&g.name);
+                    }
+                    Step::Delete { name } => {
+                        stable.remove(name);
+                    }
+                    _ => {}
+                }
                 let mut st = api.lock().unwrap();
                 let mutated = apply_step(&mut st, &mut model, step);
                 if mutated {
@@ -343,6 +362,30 @@ pub fn run(sc: &C20Sc) -> RunReport {
                 waited += 1;
                 let t = now_ns();
                 {
+                    // unsettled instant: stable servers stay offered, nothing that never existed is offered
+                    let got = adapter.discover().await.unwrap_or_default();
+                    for (name, (addr, meta)) in &stable {
+                        let hit = got.iter().any(|t| &t.identifier == name && &t.address.to_string() == addr && &t.meta.clone().into_iter().collect::<BTreeMap<_, _>>() == meta);
+                        if !hit {
+                            rep.violate(
+                                "offered_at_all_times",
+                                format!("after step #{si} ({:?}), {} ns into settling: {name} has been Ready/Allocated and untouched since the last settle point but is not offered as {addr} right now (offered: {:?})", step.map(brief), t - start, got.iter().map(|t| (&t.identifier, t.address)).collect::<Vec<_>>()),
+                            );
+                        }
+                    }
+                    for tg in &got {
+                        let m: BTreeMap<String, String> = tg.meta.clone().into_iter().collect();
+                        let known = ever.get(&tg.identifier).is_some_and(|vs| vs.iter().any(|(a, vm)| a == &tg.address.to_string() && vm == &m));
+                        if !known {
+                            rep.violate("offered_version_existed", format!("after step #{si}: {} is offered at {} with metadata {:?}, which no version of it ever had", tg.identifier, tg.address, m));
+                        }
+                    }
+                    if !rep.violations.is_empty() {
+                        break;
+                    }
+                    *rep.probes.entry("unsettled_instants_sampled".into()).or_insert(0) += 1;
+                }
+                {
                     let mut st = api.lock().unwrap();
                     st.expire_watches(t);
                     st.flush();
@@ -361,6 +404,9 @@ pub fn run(sc: &C20Sc) -> RunReport {
                 if t - start > SETTLE_NS {
                     break;
                 }
+            }
+            if !rep.violations.is_empty() {
+                break;
             }
             if !settled {
                 let st = api.lock().unwrap();
@@ -410,6 +456,7 @@ pub fn run(sc: &C20Sc) -> RunReport {
             if !rep.violations.is_empty() {
                 break;
             }
+            stable = want.clone();
         }
         drop(adapter);
         tokio::time::sleep(Duration::from_millis(5)).await;
